@@ -38,8 +38,8 @@ def cases(tier, seed):
         for d in range(draws * 3):
             out.append({"kind": "spectrum", "cls": "spectrum:" + pat, "pat": pat, "idx": idx, "seed": seed, "maxd": maxd})
             idx += 1
-    for cls in ("int", "sparse", "pure_imag", "single_axis", "gauss"):
-        for d in range(draws * 2):
+    for cls in ("int", "sparse", "pure_imag", "single_axis", "gauss", "neg_real", "nonpos", "nonneg", "sum_zero", "nonpos_sparse", "mixed_mag"):
+        for d in range(draws * 2 if cls in ("int", "sparse", "pure_imag", "single_axis", "gauss") else draws):
             out.append({"kind": "entries", "cls": "entries:" + cls, "entry": cls, "idx": idx, "seed": seed, "maxd": maxd})
             idx += 1
     for d in range(draws * 2):
